@@ -546,16 +546,16 @@ class Hist(Entry):
         cs = []
         if round == 0:
             cs += _adversarial(ctx.rng)
-        cs += _random(ctx, ctx.n(1000, 7500), ctx.n(200, 400))
+        cs += _random(ctx, ctx.n(1000, 6000), ctx.n(200, 400))
         if round == 0:
             cs += _random(ctx, ctx.n(4, 24), ctx.n(1000, 2000))          # a few long arrays
             for n, kind, cut in ctx.n([(4097, "descending", False), (1025, "ascending", True)],
                                       [(4095, "descending", False), (4096, "descending", False), (4097, "descending", False),
                                        (4097, "descending", True), (8193, "descending", False), (8191, "descending", True),
-                                       (16385, "descending", False), (1023, "ascending", False), (1025, "ascending", True),
+                                       (1023, "ascending", False), (1025, "ascending", True),
                                        (2049, "ascending", False)]):
                 cs.append(_long(ctx.rng, n, kind, cut))
-        for _ in range(ctx.n(45, 200) if round == 0 else ctx.n(15, 40)):
+        for _ in range(ctx.n(45, 150) if round == 0 else ctx.n(15, 40)):
             cs += _sequence(ctx.rng)
         ctx.rng.shuffle(cs)                       # spread the expensive cases over the Coq shards
         return cs
